@@ -1149,5 +1149,51 @@ fn main() {
         let inits = vec![NSt { hist: vec![], cfg: (usize::MAX, usize::MAX, usize::MAX, usize::MAX), solves: 0 }];
         mc::bfs::explore(&ctx, "configuration / solve histories on one Newton object", inits, mc::bfs::BfsOpts { max_depth: depth, state_cap: ctx.pick(200_000, 2_000_000) });
     }
+    // Known findings (known_findings.txt), all three consequences of design choices rather than slips, none repairable by a small patch:
+    // (1) the finite-difference step delta is absolute, so beyond |x| = 2^27 (default delta 1e-8) x + delta == x, the difference
+    //     quotient is 0 and every finite-difference variant fails on f(x) = x - 1e9;
+    // (2) the system variants stop on the ABSOLUTE residual ||F(x)||_inf <= tol: where |F'| ulp(x) > tol (x^2 = 8192 at tol 1e-12) the
+    //     criterion cannot be met even at the correctly rounded root, and Err is returned with that root;
+    // (3) the same criterion accepts a point far from an ill-conditioned root: exp(x) = 1e-8 from root + 0.5 gives Ok(-18.31), the
+    //     root is -18.42 (|F'| = 1e-8 = tol).
+    {
+        ctx.known_cases(
+            "listed inputs: absolute difference step, absolute residual criterion",
+            vec![
+                ("fd-step-absolute Newton<f64> f(x) = x - 1e9 from 1e9 + 1".to_string(), Box::new(|| {
+                    let nw = Newton::<f64>::new(1e9 + 1.0);
+                    match nw.solve(&|x| x - 1e9) {
+                        Ok(v) if (v - 1e9).abs() <= 1e-3 => Ok(()),
+                        other => Err(format!("{:?} for a linear function started next to its root", other)),
+                    }
+                })),
+                ("fd-step-absolute Newton<Vec64> F(x) = (x0 - 1e9) from (1e9 + 1)".to_string(), Box::new(|| {
+                    let nw = Newton::<Vec64>::new(Vector::create(vec![1e9 + 1.0]));
+                    match nw.solve(&|v: Vec64| Vector::create(vec![v[0] - 1e9])) {
+                        Ok(v) if (v[0] - 1e9).abs() <= 1e-3 => Ok(()),
+                        other => Err(format!("{:?} for a linear system started next to its root", other.map(|v| v.vec).map_err(|v| v.vec))),
+                    }
+                })),
+                ("residual-criterion-unattainable Newton<Vec64> x^2 = 8192 tol 1e-12".to_string(), Box::new(|| {
+                    let mut nw = Newton::<Vec64>::new(Vector::create(vec![90.0]));
+                    nw.tolerance(1e-12);
+                    nw.iterations(50);
+                    match nw.solve_jacobian(&|v: Vec64| Vector::create(vec![v[0] * v[0] - 8192.0]), &|v: Vec64| { let mut m = Mat64::new(1, 1, 0.0); m[(0, 0)] = 2.0 * v[0]; m }) {
+                        Ok(_) => Ok(()),
+                        Err(v) => Err(format!("Err({:?}) after 50 iterations although the iterate is the correctly rounded root (8192^(1/2) = {})", v.vec, 8192f64.sqrt())),
+                    }
+                })),
+                ("residual-criterion-ill-conditioned Newton<Vec64> exp(x) = 1e-8 from root + 0.5".to_string(), Box::new(|| {
+                    let root = (1e-8f64).ln();
+                    let nw = Newton::<Vec64>::new(Vector::create(vec![root + 0.5]));
+                    match nw.solve_jacobian(&|v: Vec64| Vector::create(vec![v[0].exp() - 1e-8]), &|v: Vec64| { let mut m = Mat64::new(1, 1, 0.0); m[(0, 0)] = v[0].exp(); m }) {
+                        Ok(v) if (v[0] - root).abs() <= 1e-6 => Ok(()),
+                        Ok(v) => Err(format!("Ok({:?}) but the root is {} (distance {:e}, tolerance 1e-8)", v.vec, root, (v[0] - root).abs())),
+                        Err(v) => Err(format!("Err({:?})", v.vec)),
+                    }
+                })),
+            ],
+        );
+    }
     std::process::exit(ctx.finish());
 }
